@@ -54,6 +54,10 @@ func NewSubRingWithCustomNTT(N int, Modulus uint64, ntt func(*SubRing, int) Numb
 		panic(fmt.Errorf("invalid NthRoot: NthRoot=%d should be greater than 0", NthRoot))
 	}
 
+	if Modulus < 2 {
+		return nil, fmt.Errorf("invalid modulus: must be greater than 1 but is %d", Modulus)
+	}
+
 	s = &SubRing{}
 
 	s.N = N
